@@ -288,6 +288,11 @@ func (x *Ctx) Quiesce(bound time.Duration) bool {
 		return out
 	}
 	for time.Now().Before(dl) {
+		if x.M.HasViolations() {
+			// the run is already refuted; a diverged cluster need not converge
+			x.M.Emit(mon.Event{Kind: mon.KPhase, Str: "quiesce-skipped"})
+			return false
+		}
 		rv, starts, exch := x.M.Steps()
 		l := x.C.Leader()
 		if l == "" {
